@@ -51,6 +51,7 @@ type c09World struct {
 	shape   c09Shape
 	xParent int // index of the node under which "x" is spawned (-1: none)
 	restart bool
+	stopOps int  // number of operations in the program that stop actors (Restart included)
 	stopped bool // system stopped by an operation
 }
 
@@ -194,14 +195,25 @@ func c09LogCheck(cw *c09World, evs []lfEv) []vsched.Violation {
 			}
 			for _, d := range cw.descendants(idx) {
 				if open[d] {
-					cause := "descendant-not-stopped"
-					if cw.restart {
-						cause = "descendant-not-stopped-after-restart"
+					inProgress := stopping[d]
+					for _, sn := range e.stoppingNow {
+						if sn == d {
+							inProgress = true
+						}
 					}
-					if d == "x" {
+					var cause string
+					switch {
+					case d == "x":
 						cause = "racing-spawnchild"
-					} else if stopping[d] {
-						cause = "descendant-stop-in-progress"
+					case inProgress && cw.stopOps >= 2:
+						// the descendant is being stopped by another, concurrent stop operation
+						cause = "concurrent-stop-of-descendant-in-progress"
+					case inProgress:
+						cause = "descendant-stop-not-awaited"
+					case cw.restart:
+						cause = "descendant-not-stopped-after-restart"
+					default:
+						cause = "descendant-not-stopped"
 					}
 					out = append(out, vsched.Fail("ancestor-poststop-before-descendant-poststop-complete/"+cause,
 						"event %d %s (stop path %s): PostStop of %s starts while descendant %s has started and its PostStop has not completed | log: %s", i, e, e.path, e.actor, d, lfLogString(evs)))
@@ -272,7 +284,11 @@ func c09FinalCheck(cw *c09World) []vsched.Violation {
 		}
 		if !pid.isStateSet(runningState) {
 			if node, ok := tr.node(pid.ID()); ok && node.value() == pid {
-				out = append(out, vsched.Fail("stopped-actor-still-registered", "%s is stopped but still registered in the tree at quiescence", n))
+				sig := "stopped-actor-still-registered"
+				if cw.restart {
+					sig += "/after-restart"
+				}
+				out = append(out, vsched.Fail(sig, "%s is stopped but still registered in the tree at quiescence", n))
 			}
 		}
 	}
@@ -282,129 +298,134 @@ func c09FinalCheck(cw *c09World) []vsched.Violation {
 func c09Run(t *testing.T, shape c09Shape) func(c *vsched.Chooser) vsched.Outcome {
 	return func(c *vsched.Chooser) vsched.Outcome {
 		var out vsched.Outcome
+		w := &lfWorld{}
 		p := vfBubble(t, func() {
-			w := &lfWorld{}
-			cw := &c09World{lfWorld: w, shape: shape, xParent: -1}
-			w.sys = lfNewSystem("c09")
-			w.wrapDeathWatch()
-			for i, p := range shape.parent {
-				if p < 0 {
-					c06Spawn(w, c09Name(i), WithLongLived())
-				} else {
-					c06SpawnChild(w, w.pid(c09Name(p)), c09Name(i), WithLongLived())
+			lfGuard(w, &out, func() {
+				cw := &c09World{lfWorld: w, shape: shape, xParent: -1}
+				w.sys = lfNewSystem("c09")
+				w.wrapDeathWatch()
+				for i, p := range shape.parent {
+					if p < 0 {
+						c06Spawn(w, c09Name(i), WithLongLived())
+					} else {
+						c06SpawnChild(w, w.pid(c09Name(p)), c09Name(i), WithLongLived())
+					}
 				}
-			}
-			vsched.Settle()
+				vsched.Settle()
 
-			// ---- program selection (part of the enumerated choice sequence)
-			opts := c09StopOpts(cw)
-			i1 := c.Choose("config", len(opts), nil, func(i int) string { return "op1=" + opts[i].label })
-			n2 := 1 + len(opts) - i1
-			costs2 := make([]int, n2)
-			for i := 1; i < n2; i++ {
-				costs2[i] = 1
-			}
-			i2 := c.Choose("config", n2, costs2, func(i int) string {
-				if i == 0 {
-					return "op2=none"
+				// ---- program selection (part of the enumerated choice sequence)
+				opts := c09StopOpts(cw)
+				i1 := c.Choose("config", len(opts), nil, func(i int) string { return "op1=" + opts[i].label })
+				n2 := 1 + len(opts) - i1
+				costs2 := make([]int, n2)
+				for i := 1; i < n2; i++ {
+					costs2[i] = 1
 				}
-				return "op2=" + opts[i1+i-1].label
-			})
-			n := len(shape.parent)
-			n3 := 1 + 2*n
-			costs3 := make([]int, n3)
-			for i := 1; i < n3; i++ {
-				costs3[i] = 1
-			}
-			i3 := c.Choose("config", n3, costs3, func(i int) string {
+				i2 := c.Choose("config", n2, costs2, func(i int) string {
+					if i == 0 {
+						return "op2=none"
+					}
+					return "op2=" + opts[i1+i-1].label
+				})
+				n := len(shape.parent)
+				n3 := 1 + 2*n
+				costs3 := make([]int, n3)
+				for i := 1; i < n3; i++ {
+					costs3[i] = 1
+				}
+				i3 := c.Choose("config", n3, costs3, func(i int) string {
+					switch {
+					case i == 0:
+						return "op3=none"
+					case i <= n:
+						return "op3=spawnchild(" + c09Name(i-1) + ",x)"
+					}
+					return "op3=restart(" + c09Name(i-1-n) + ")"
+				})
+				cfg := []string{opts[i1].label}
+				w.addOp(opts[i1].mk(cw))
+				cw.stopOps = 1
+				if i2 > 0 {
+					cw.stopOps++
+					o := opts[i1+i2-1].mk(cw)
+					o.label += "#2"
+					w.addOp(o)
+					cfg = append(cfg, o.label)
+				}
+				var rs *lfOp
 				switch {
-				case i == 0:
-					return "op3=none"
-				case i <= n:
-					return "op3=spawnchild(" + c09Name(i-1) + ",x)"
+				case i3 == 0:
+				case i3 <= n:
+					cw.xParent = i3 - 1
+					pn := c09Name(cw.xParent)
+					w.addOp(&lfOp{label: "spawnchild(" + pn + ",x)", kind: "spawnchild", run: func(w *lfWorld) string {
+						a := w.newActor("x")
+						pid, err := w.pid(pn).SpawnChild(c06Ctx, "x", a, WithLongLived())
+						if err == nil && pid != nil {
+							w.setTrack("x", pid)
+							w.addChild(pn, "x")
+						}
+						return lfErrClass(err)
+					}})
+					cfg = append(cfg, "spawnchild("+pn+",x)")
+				default:
+					cw.restart = true
+					cw.stopOps++
+					rs = w.addOp(lfOpRestart(c09Name(i3 - 1 - n)))
+					cfg = append(cfg, rs.label)
 				}
-				return "op3=restart(" + c09Name(i-1-n) + ")"
-			})
-			cfg := []string{opts[i1].label}
-			w.addOp(opts[i1].mk(cw))
-			if i2 > 0 {
-				o := opts[i1+i2-1].mk(cw)
-				o.label += "#2"
-				w.addOp(o)
-				cfg = append(cfg, o.label)
-			}
-			var rs *lfOp
-			switch {
-			case i3 == 0:
-			case i3 <= n:
-				cw.xParent = i3 - 1
-				pn := c09Name(cw.xParent)
-				w.addOp(&lfOp{label: "spawnchild(" + pn + ",x)", kind: "spawnchild", run: func(w *lfWorld) string {
-					a := w.newActor("x")
-					pid, err := w.pid(pn).SpawnChild(c06Ctx, "x", a, WithLongLived())
-					if err == nil && pid != nil {
-						w.setTrack("x", pid)
-						w.addChild(pn, "x")
+				w.gatePolicy = func(a *lfActor, hook, msg string) bool {
+					switch hook {
+					case "post", "dw":
+						return true
+					case "pre":
+						return a.name == "x" || a.curInc() > 1
 					}
-					return lfErrClass(err)
-				}})
-				cfg = append(cfg, "spawnchild("+pn+",x)")
-			default:
-				cw.restart = true
-				rs = w.addOp(lfOpRestart(c09Name(i3 - 1 - n)))
-				cfg = append(cfg, rs.label)
-			}
-			w.gatePolicy = func(a *lfActor, hook, msg string) bool {
-				switch hook {
-				case "post", "dw":
-					return true
-				case "pre":
-					return a.name == "x" || a.curInc() > 1
+					return false
 				}
-				return false
-			}
-			if rs != nil {
-				w.afterStep = func() {
-					if rs.started && !w.opDone(rs) {
-						time.Sleep(10 * time.Millisecond)
-						vsched.Settle()
+				if rs != nil {
+					w.afterStep = func() {
+						if rs.started && !w.opDone(rs) {
+							time.Sleep(10 * time.Millisecond)
+							vsched.Settle()
+						}
 					}
 				}
-			}
-			w.loop(c, 80, nil, func() []vsched.Violation { return c09StepInv(cw) }, nil)
+				w.loop(c, 80, nil, func() []vsched.Violation { return c09StepInv(cw) }, nil)
 
-			// final quiescence with the system still up
-			w.releaseAll()
-			for i := 0; i < 5; i++ {
-				pending := false
+				// final quiescence with the system still up
+				w.releaseAll()
+				for i := 0; i < 5; i++ {
+					pending := false
+					for _, op := range w.ops {
+						if op.started && !w.opDone(op) {
+							pending = true
+						}
+					}
+					if !pending {
+						break
+					}
+					time.Sleep(20 * time.Millisecond)
+					w.releaseAll()
+				}
+				vsched.Settle()
+				w.addViol(c09StepInv(cw)...)
+				w.addViol(c09FinalCheck(cw)...)
+				hung := w.teardown()
+				evs := w.snapshot()
+				w.addViol(c09LogCheck(cw, evs)...)
+				out.Violations = w.violations()
+				var res []string
 				for _, op := range w.ops {
-					if op.started && !w.opDone(op) {
-						pending = true
+					if op.started {
+						res = append(res, op.label+"="+op.result)
 					}
 				}
-				if !pending {
-					break
+				out.Obs = strings.Join(cfg, "+") + " || " + strings.Join(w.steps, ";") + " || " + lfPerActor(evs) + " || " + strings.Join(res, ",")
+				if len(hung) > 0 {
+					out.Invalid = "client operation did not return: " + strings.Join(hung, ",")
 				}
-				time.Sleep(20 * time.Millisecond)
-				w.releaseAll()
-			}
-			vsched.Settle()
-			w.addViol(c09StepInv(cw)...)
-			w.addViol(c09FinalCheck(cw)...)
-			hung := w.teardown()
-			evs := w.snapshot()
-			w.addViol(c09LogCheck(cw, evs)...)
-			out.Violations = w.violations()
-			var res []string
-			for _, op := range w.ops {
-				if op.started {
-					res = append(res, op.label+"="+op.result)
-				}
-			}
-			out.Obs = strings.Join(cfg, "+") + " || " + strings.Join(w.steps, ";") + " || " + lfPerActor(evs) + " || " + strings.Join(res, ",")
-			if len(hung) > 0 {
-				out.Invalid = "client operation did not return: " + strings.Join(hung, ",")
-			}
+			})
 		})
 		if p != nil {
 			out.Invalid = fmt.Sprintf("panic in bubble: %v", p)
@@ -420,11 +441,14 @@ func TestVerifC09(t *testing.T) {
 	r.Assumption("orders in which a second stopper would wait on a held PID.stopLocker are represented by the order in which it starts right after the lock is released")
 	var scs []vsched.Scenario
 	for _, sh := range c09Shapes {
-		if len(sh.parent) == 4 && sh.name == "4chain" && !r.Thorough() {
-			continue
+		// bounds: <=3 actors: one optional extra operation (quick) / both (thorough);
+		// 4 actors: single stop only (quick) / one optional extra operation (thorough)
+		bound := vsched.Pick(1, 2)
+		if len(sh.parent) == 4 {
+			bound = vsched.Pick(0, 1)
 		}
 		scs = append(scs, vsched.Scenario{
-			Cfg: vsched.Config{Scenario: "c09/" + sh.name, Bound: vsched.Pick(1, 2), SplitDepth: 2,
+			Cfg: vsched.Config{Scenario: "c09/" + sh.name, Bound: bound, SplitDepth: 2,
 				Params: map[string]any{"parents": sh.parent}},
 			Run: c09Run(t, sh),
 		})
